@@ -200,12 +200,9 @@ func (vs *VersionedStore) Close() lib.ErrorI {
 			return ErrCloseDB(err)
 		}
 	}
-	// for read-only versioned store, batch may be nil
-	if vs.batch != nil {
-		if err := vs.batch.Close(); err != nil {
-			return ErrCloseDB(err)
-		}
-	}
+	// the write batch is not closed here: it belongs to whoever created it (the Store hands ONE batch to its state store and its
+	// indexer and closes it once in Discard()). pebble recycles a batch into a process wide pool on Close(); a second Close()
+	// through a stale pointer wipes and re-pools a batch another store has taken from the pool in the meantime
 	vs.closed = true
 	return nil
 }
